@@ -257,6 +257,8 @@ pub enum AOp {
     /// fake (or re-fake) function i with value v
     Fake { i: u8, v: u32 },
     Await { i: u8, arg: u16, thread: u8 },
+    /// n consecutive awaits of function i under the current installation ("any number of times")
+    Burst { i: u8, n: u16 },
     EndLifetime,
 }
 
@@ -267,6 +269,16 @@ pub struct AsyncCase {
 
 #[derive(Serialize, Deserialize, Clone, Debug, Default)]
 pub struct AwaitObs {
+    /// Burst: number of awaits aggregated in this record (0 = a single await)
+    #[serde(default)]
+    pub burst: u32,
+    /// Burst: how many of them needed more than one poll / yielded something other than `value`
+    #[serde(default)]
+    pub burst_slow: u32,
+    #[serde(default)]
+    pub burst_other_values: u32,
+    #[serde(default)]
+    pub burst_first_slow: Option<u32>,
     pub op: usize,
     pub i: usize,
     pub arg: u64,
@@ -335,6 +347,47 @@ pub fn execute(c: &AsyncCase) -> AsyncObs {
                 }
                 o.awaits.push(a);
             }
+            AOp::Burst { i, n } => {
+                let i = *i as usize % N_FNS;
+                let n = (*n as u32).clamp(2, 600);
+                let r0 = ORIG_RUNS[i].load(SeqCst);
+                let e0 = EVALS[i].load(SeqCst);
+                crate::worker::phase("await-burst");
+                let mut a = AwaitObs { op: k, i, arg: 9, burst: n, ..Default::default() };
+                let res = std::panic::catch_unwind(|| {
+                    let mut first: Option<(String, u32)> = None;
+                    let (mut slow, mut other, mut first_slow) = (0u32, 0u32, None);
+                    for j in 0..n {
+                        let (v, p) = await_fn(i, 9);
+                        if first.is_none() {
+                            first = Some((v.clone(), p));
+                        }
+                        if p != first.as_ref().unwrap().1 {
+                            slow += 1;
+                            if first_slow.is_none() {
+                                first_slow = Some(j);
+                            }
+                        }
+                        if v != first.as_ref().unwrap().0 {
+                            other += 1;
+                        }
+                    }
+                    (first.unwrap(), slow, other, first_slow)
+                });
+                match res {
+                    Ok(((v, p), slow, other, fs)) => {
+                        a.value = v;
+                        a.polls = p;
+                        a.burst_slow = slow;
+                        a.burst_other_values = other;
+                        a.burst_first_slow = fs;
+                    }
+                    Err(_) => a.panicked = Some(crate::worker::last_panic()),
+                }
+                a.orig_runs_delta = ORIG_RUNS[i].load(SeqCst) - r0;
+                a.evals_delta = EVALS[i].load(SeqCst) - e0;
+                o.awaits.push(a);
+            }
             AOp::EndLifetime => {
                 crate::worker::phase("drop");
                 if let Some(i) = inj.take() {
@@ -351,6 +404,7 @@ pub fn strategy() -> impl Strategy<Value = AsyncCase> {
     let op = prop_oneof![
         3 => (0u8..N_FNS as u8, any::<u32>()).prop_map(|(i, v)| AOp::Fake { i, v: v % 900_000 }),
         5 => (0u8..N_FNS as u8, any::<u16>(), 0u8..4).prop_map(|(i, arg, thread)| AOp::Await { i, arg, thread }),
+        1 => (0u8..N_FNS as u8, prop_oneof![2 => 2u16..40, 2 => 120u16..300, 1 => 300u16..600]).prop_map(|(i, n)| AOp::Burst { i, n }),
         1 => Just(AOp::EndLifetime),
     ];
     (prop::collection::vec(op, 1..=24), 0u8..N_FNS as u8).prop_map(|(ops, focus)| {
@@ -360,6 +414,7 @@ pub fn strategy() -> impl Strategy<Value = AsyncCase> {
             .map(|o| match o {
                 AOp::Fake { i, v } => AOp::Fake { i: (focus + i % 4) % N_FNS as u8, v },
                 AOp::Await { i, arg, thread } => AOp::Await { i: (focus + i % 4) % N_FNS as u8, arg, thread },
+                AOp::Burst { i, n } => AOp::Burst { i: (focus + i % 4) % N_FNS as u8, n },
                 x => x,
             })
             .collect();
@@ -412,6 +467,7 @@ pub fn judge(rec: &mut Recorder, c: &AsyncCase, ex: Exec, _hello: &Value) -> Res
     let mut refake = false;
     let mut sibling_await = false;
     let mut big = false;
+    let mut burst = false;
     let mut ai = 0;
     const SAME_OUT: [&[usize]; 3] = [&[1, 2, 10], &[5, 6], &[]];
     for (k, op) in ops.iter().enumerate() {
@@ -430,6 +486,42 @@ pub fn judge(rec: &mut Recorder, c: &AsyncCase, ex: Exec, _hello: &Value) -> Res
                 }
                 current = [None; N_FNS];
                 nfakes = [0; N_FNS];
+            }
+            AOp::Burst { i, .. } => {
+                let i = *i as usize % N_FNS;
+                let a = &o.awaits[ai];
+                ai += 1;
+                let n = a.burst as u64;
+                let ctx = |s: String| format!("op {k}: {n} consecutive awaits of fn{i}: {s}; case {c:?}");
+                if let Some(p) = &a.panicked {
+                    return rec.fail(&sig("await-panicked"), ctx(format!("panicked: {p}")));
+                }
+                match current[i] {
+                    Some((site, v)) => {
+                        let want = fake_repr(i, site, v);
+                        if a.polls != 1 || a.burst_slow != 0 {
+                            return rec.fail(&sig("faked-await-not-ready-on-first-poll"), ctx(format!("{} of the awaits did not complete on their first poll (first such await: #{:?}; the first await took {} poll(s))", a.burst_slow, a.burst_first_slow, a.polls)));
+                        }
+                        if a.value != want || a.burst_other_values != 0 {
+                            return rec.fail(&sig("faked-await-wrong-value"), ctx(format!("first await yielded {}, {} later ones something else; the fake yields {want}", a.value, a.burst_other_values)));
+                        }
+                        if a.orig_runs_delta != 0 {
+                            return rec.fail(&sig("original-body-ran-while-faked"), ctx(format!("original body ran {} time(s)", a.orig_runs_delta)));
+                        }
+                        if a.evals_delta != n {
+                            return rec.fail(&sig("value-not-evaluated-afresh"), ctx(format!("the value expression was evaluated {} time(s) for {n} awaits", a.evals_delta)));
+                        }
+                        if n >= 120 {
+                            burst = true;
+                        }
+                    }
+                    None => {
+                        let want = orig_repr(i, 9);
+                        if a.value != want || a.polls != 2 || a.burst_slow != 0 || a.burst_other_values != 0 || a.orig_runs_delta != n || a.evals_delta != 0 {
+                            return rec.fail(&sig("unfaked-sibling-affected"), ctx(format!("unfaked function: first await {} in {} polls, {} awaits deviated, original ran {} times; original yields {want} in 2 polls each", a.value, a.polls, a.burst_slow + a.burst_other_values, a.orig_runs_delta)));
+                        }
+                    }
+                }
             }
             AOp::Await { i, arg, .. } => {
                 let i = *i as usize % N_FNS;
@@ -476,7 +568,10 @@ pub fn judge(rec: &mut Recorder, c: &AsyncCase, ex: Exec, _hello: &Value) -> Res
         }
     }
     rec.class(&format!("lifetimes={}{}{}{}", lifetimes.min(4), if refake { "/re-fake" } else { "" }, if sibling_await { "/same-output-sibling-awaited" } else { "" }, if big { "/big-output" } else { "" }));
-    if sibling_await || refake || big || lifetimes >= 2 {
+    if burst {
+        rec.class("burst>=120-awaits-of-one-installation");
+    }
+    if sibling_await || refake || big || burst || lifetimes >= 2 {
         rec.nontrivial(&c.ops);
     }
     Ok(())
